@@ -29,6 +29,7 @@ pub fn run(fields: &[&str], cases: &mut impl Write, out: &mut impl Write, _line:
         "CLI" => run_cli(fields, out),
         "CONV" => run_conv(fields, out),
         "LOADF" => run_loadf(fields, out),
+        "EQV" => run_eqv(fields, out),
         _ => writeln!(out, "{id} SKIP unknown-request").unwrap(),
     }));
     if let Err(e) = r {
@@ -691,5 +692,78 @@ fn run_conv(fields: &[&str], out: &mut impl Write) {
         writeln!(out, "{id} OK {} variables, {} fresh inputs", names1.len(), fresh.len()).unwrap();
     } else {
         writeln!(out, "{id} ERR {}", clean(&problems.join("; "))).unwrap();
+    }
+}
+
+/// EQV id k net ctx(label=f<formula>,...) formulas
+/// Laws on networks of any size, through the API only: the formulae come in consecutive pairs
+/// (2i, 2i+1) whose raw results must be equal as BDDs; context sets are results of plain
+/// formulae.  No enumeration of valuations is involved.
+fn run_eqv(fields: &[&str], out: &mut impl Write) {
+    let id = fields[1];
+    let k: u16 = fields[2].parse().unwrap();
+    let bn = match load_network(fields[3]) {
+        Ok(b) => b,
+        Err(e) => {
+            writeln!(out, "{id} SKIP network:{}", clean(&e)).unwrap();
+            return;
+        }
+    };
+    let graph = match get_extended_symbolic_graph(&bn, k) {
+        Ok(g) => g,
+        Err(e) => {
+            writeln!(out, "{id} SKIP graph:{}", clean(&e)).unwrap();
+            return;
+        }
+    };
+    let mut context: HashMap<String, GraphColoredVertices> = HashMap::new();
+    for item in split_list(fields[4]) {
+        if item == "-" {
+            continue;
+        }
+        let (label, spec) = item.split_once('=').unwrap();
+        let set = match &spec[..1] {
+            "f" => match model_check_formula_dirty(unhex(&spec[1..]).as_str(), &graph) {
+                Ok(s) => s,
+                Err(e) => {
+                    writeln!(out, "{id} SKIP context:{}", clean(&e)).unwrap();
+                    return;
+                }
+            },
+            "e" => graph.mk_empty_colored_vertices(),
+            _ => graph.mk_unit_colored_vertices(),
+        };
+        context.insert(unhex(label), set);
+    }
+    let formulas: Vec<String> = split_list(fields[5]).iter().map(|h| unhex(h)).collect();
+    let mut results = Vec::new();
+    for f in &formulas {
+        match model_check_extended_formula_dirty(f.as_str(), &graph, &context) {
+            Ok(r) => results.push(r),
+            Err(e) => {
+                writeln!(out, "{id} ERR formula {} rejected: {}", hex(f), clean(&e)).unwrap();
+                return;
+            }
+        }
+    }
+    let mut bad = Vec::new();
+    for i in 0..(results.len() / 2) {
+        if results[2 * i].as_bdd() != results[2 * i + 1].as_bdd() {
+            bad.push(format!(
+                "{} <> {} ({} vs {} pairs)",
+                formulas[2 * i],
+                formulas[2 * i + 1],
+                results[2 * i].approx_cardinality(),
+                results[2 * i + 1].approx_cardinality()
+            ));
+        }
+        if !results[2 * i].is_subset(graph.unit_colored_vertices()) {
+            bad.push(format!("{} leaves the unit set", formulas[2 * i]));
+        }
+    }
+    if bad.is_empty() {
+        writeln!(out, "{id} OK {} pairs on {} variables", results.len() / 2, graph.num_vars()).unwrap();
+    } else {
+        writeln!(out, "{id} ERR {}", clean(&bad.join("; "))).unwrap();
     }
 }
